@@ -40,13 +40,19 @@ impl TxDependency {
     }
 
     pub(crate) fn next(&self) -> Option<TxId> {
+        #[cfg(feature = "verif-hooks")]
+        crate::verif::rt::pt("dep_next_load");
         if self.index.load(Ordering::Relaxed) >= self.num_txs {
             return None;
         }
+        #[cfg(feature = "verif-hooks")]
+        crate::verif::rt::pt("dep_next_fetch_add");
         let index = self.index.fetch_add(1, Ordering::Relaxed);
         if index >= self.num_txs {
             return None;
         }
+        #[cfg(feature = "verif-hooks")]
+        crate::verif::rt::before_lock("lock_dep", index, || self.dependent_state[index].is_locked());
         let mut state = self.dependent_state[index].lock();
         if state.onboard && state.dependency.is_none() {
             state.onboard = false;
@@ -65,11 +71,15 @@ impl TxDependency {
     /// its cursor position has already been passed; all other released work rewinds the cursor.
     pub(crate) fn remove(&self, txid: TxId, pop_next: bool) -> Option<TxId> {
         let mut next = None;
+        #[cfg(feature = "verif-hooks")]
+        crate::verif::rt::before_lock("lock_affect", txid, || self.affect_txs[txid].is_locked());
         let mut affects = self.affect_txs[txid].lock();
         if affects.is_empty() {
             return next;
         }
         for &tx in affects.iter() {
+            #[cfg(feature = "verif-hooks")]
+            crate::verif::rt::before_lock("lock_dep", tx, || self.dependent_state[tx].is_locked());
             let mut dependent = self.dependent_state[tx].lock();
             if dependent.dependency == Some(txid) {
                 dependent.dependency = None;
@@ -78,6 +88,8 @@ impl TxDependency {
                         dependent.onboard = false;
                         next = Some(tx);
                     } else {
+                        #[cfg(feature = "verif-hooks")]
+                        crate::verif::rt::pt1("dep_fetch_min", tx);
                         self.index.fetch_min(tx, Ordering::Relaxed);
                     }
                 }
@@ -91,9 +103,13 @@ impl TxDependency {
     pub(crate) fn commit(&self, txid: TxId) {
         let next = txid + 1;
         if next < self.num_txs {
+            #[cfg(feature = "verif-hooks")]
+            crate::verif::rt::before_lock("lock_dep", next, || self.dependent_state[next].is_locked());
             let mut state = self.dependent_state[next].lock();
             if state.onboard {
                 state.dependency = None;
+                #[cfg(feature = "verif-hooks")]
+                crate::verif::rt::pt1("dep_fetch_min", next);
                 self.index.fetch_min(next, Ordering::Relaxed);
             }
         }
@@ -105,7 +121,11 @@ impl TxDependency {
     /// Once the committed prefix reaches `txid`, no barrier is installed and the cursor is rewound
     /// immediately; otherwise committing `txid - 1` releases it through [`Self::commit`].
     pub(crate) fn key_tx(&self, txid: TxId, commit_idx: PublishedCursorReader<'_>) {
+        #[cfg(feature = "verif-hooks")]
+        crate::verif::rt::before_lock("lock_dep", txid, || self.dependent_state[txid].is_locked());
         let mut state = self.dependent_state[txid].lock();
+        #[cfg(feature = "verif-hooks")]
+        crate::verif::rt::pt1("dep_key_read_commit", txid);
         if txid > commit_idx.get() {
             state.dependency = Some(txid);
         }
@@ -113,6 +133,8 @@ impl TxDependency {
             state.onboard = true;
         }
         if state.dependency.is_none() {
+            #[cfg(feature = "verif-hooks")]
+            crate::verif::rt::pt1("dep_fetch_min", txid);
             self.index.fetch_min(txid, Ordering::Relaxed);
         }
     }
@@ -131,8 +153,14 @@ impl TxDependency {
                 dep_id < txid,
                 "dependency transaction {dep_id} must precede dependent transaction {txid}",
             );
+            #[cfg(feature = "verif-hooks")]
+            crate::verif::rt::before_lock("lock_affect", dep_id, || self.affect_txs[dep_id].is_locked());
             let mut dep = self.affect_txs[dep_id].lock();
+            #[cfg(feature = "verif-hooks")]
+            crate::verif::rt::before_lock("lock_dep", dep_id, || self.dependent_state[dep_id].is_locked());
             let mut dep_state = self.dependent_state[dep_id].lock();
+            #[cfg(feature = "verif-hooks")]
+            crate::verif::rt::before_lock("lock_dep", txid, || self.dependent_state[txid].is_locked());
             let mut state = self.dependent_state[txid].lock();
             state.dependency = Some(dep_id);
             if !state.onboard {
@@ -144,16 +172,48 @@ impl TxDependency {
                 dep_state.onboard = true;
             }
             if dep_state.dependency.is_none() {
+                #[cfg(feature = "verif-hooks")]
+                crate::verif::rt::pt1("dep_fetch_min", dep_id);
                 self.index.fetch_min(dep_id, Ordering::Relaxed);
             }
         } else {
+            #[cfg(feature = "verif-hooks")]
+            crate::verif::rt::before_lock("lock_dep", txid, || self.dependent_state[txid].is_locked());
             let mut state = self.dependent_state[txid].lock();
             if !state.onboard {
                 state.onboard = true;
                 state.dependency = None;
+                #[cfg(feature = "verif-hooks")]
+                crate::verif::rt::pt1("dep_fetch_min", txid);
                 self.index.fetch_min(txid, Ordering::Relaxed);
             }
         }
+    }
+}
+
+#[cfg(feature = "verif-hooks")]
+impl TxDependency {
+    /// `(onboard, dependency)` per transaction, sorted reverse edges per predecessor, cursor.
+    #[allow(clippy::type_complexity)]
+    pub(crate) fn verif_snapshot(&self) -> (Vec<(bool, Option<TxId>)>, Vec<Vec<TxId>>, usize) {
+        let states = self
+            .dependent_state
+            .iter()
+            .map(|state| {
+                let state = state.lock();
+                (state.onboard, state.dependency)
+            })
+            .collect();
+        let affects = self
+            .affect_txs
+            .iter()
+            .map(|set| {
+                let mut txs: Vec<TxId> = set.lock().iter().copied().collect();
+                txs.sort_unstable();
+                txs
+            })
+            .collect();
+        (states, affects, self.index.load(Ordering::Relaxed))
     }
 }
 
